@@ -243,31 +243,36 @@ Rm(t, K) == RmGen(t, K, FALSE)
 RmQuirk(t, K) == RmGen(t, K, TRUE)
 
 \* ---------------------------------------------------------------- design theorems
-\* and/or only: losing more genes never enables a rule; only the genes that occur matter
-ThMonotone(t) == \A K1 \in SUBSET Genes : \A K2 \in SUBSET K1 : Eval(t, K1) => Eval(t, K2)
-ThGenes(t) == \A K \in SUBSET Genes : Eval(t, K) = Eval(t, K \cap GenesOf(t))
+\* and/or only: losing one more gene never enables a rule (hence, by induction, losing more
+\* genes never does); only the genes that occur matter
+ThMonotone(t) == \A K \in SUBSET Genes : \A g \in Genes \ K : Eval(t, K \cup {g}) => Eval(t, K)
+ThGenes(t) == LET gs == GenesOf(t) IN \A K \in SUBSET Genes : Eval(t, K) = Eval(t, K \cap gs)
 
 \* removal: the rule disappears exactly when the reaction cannot be catalysed any more;
 \* otherwise the new rule is the old rule with the genes of K absent, and mentions none of them
 ThRemove(t) ==
+  LET gs == GenesOf(t) IN
   \A K \in SUBSET Genes :
     LET r == Rm(t, K) IN
     /\ (r = Absent) = ~Eval(t, K)
-    /\ GenesOf(r) \subseteq GenesOf(t) \ K
+    /\ GenesOf(r) \subseteq gs \ K
     /\ Eval(t, K) => \A K2 \in SUBSET Genes : Eval(r, K2) = Eval(t, K \cup K2)
-\* removing in two steps is removing the union
+\* removing one more gene after K is removing K and that gene at once (hence, by induction,
+\* removing in any number of steps is removing the union; GPR!InvRemoved checks the general
+\* statement on every reachable removal state)
 ThRemoveCompose(t) ==
-  \A K1 \in SUBSET Genes : \A K2 \in SUBSET (Genes \ K1) : Rm(Rm(t, K1), K2) = Rm(t, K1 \cup K2)
+  \A K \in SUBSET Genes : \A g \in Genes \ K : Rm(Rm(t, K), {g}) = Rm(t, K \cup {g})
 
 \* text: printing and parsing again gives the very same tree; every allowed spelling parses to
 \* a tree with the same truth table and gene set, whose printed form is a fixed point
 ThPrintParse(t) == ParseTokens(PrintToks(t)) = t
 ThSpell(t) ==
+  LET tt == TTSeq(t) gs == GenesOf(t) IN
   \A st \in Styles :
-    LET s == Spell(t, st) p == ParseShape(s) IN
+    LET p == ParseShape(Spell(t, st)) IN
     /\ p.k # "error"
-    /\ TTSeq(p) = TTSeq(t)
-    /\ GenesOf(p) = GenesOf(t)
+    /\ TTSeq(p) = tt
+    /\ GenesOf(p) = gs
     /\ ParseTokens(PrintToks(p)) = Norm(p)
 \* the quirk changes nothing for rules written with words only
 ThQuirkOnlyBitwise(t) == \A K \in SUBSET Genes : RmQuirk(t, K) = Rm(t, K)
